@@ -620,6 +620,53 @@ class ThriftGen:
                                                 dict(id=2, name="j", ty=("base", "i32"), req="", default=None, annos=[])]))
 
 
+def sweep_doc():
+    """a fixed document that is always part of the C14 corpus: every Rust keyword as field / variant / method / argument
+    name, case-conversion collisions among fields and among items, recursion through optional fields, containers and
+    unions, references across three namespaces (up, down and sideways)"""
+    d = Doc()
+    kws = [k for k in RUST_KEYWORDS if ident_ok(k)]
+    fl = lambda i, n, t, req="": dict(id=i, name=n, ty=t, req=req, default=None, annos=[])
+    i32 = ("base", "i32")
+    d.files.append(dict(name="main.thrift", ns=["sw", "a", "deep"], includes=[1, 2], items=[], other_ns=False))
+    d.files.append(dict(name="f1.thrift", ns=["sw", "a"], includes=[2], items=[], other_ns=False))
+    d.files.append(dict(name="f2.thrift", ns=["sw", "type"], includes=[], items=[], other_ns=False))
+    f0, f1, f2 = d.files
+    f2["items"] += [
+        dict(kind="struct", name="Leaf", complete=True, annos=[], fields=[fl(1, "v", ("base", "i64"), "required")]),
+        dict(kind="enum", name="Color", complete=True, members=[("red", 1), ("fooBar", 2), ("foo_bar", 3), ("type", None)]),
+        dict(kind="typedef", name="LeafAlias", ty=("ref", 2, "Leaf"), complete=True, annos=[]),
+        dict(kind="const", name="LIMIT", ty=i32, value="7"),
+    ]
+    f1["items"] += [
+        dict(kind="struct", name="KwFields", complete=True, annos=[], fields=[fl(i + 1, k, i32, "optional") for i, k in enumerate(kws) if k not in ("self", "Self", "super", "crate")] +
+             [fl(200, "self", i32), fl(201, "Self", i32), fl(202, "super", i32), fl(203, "crate", i32)]),
+        dict(kind="union", name="KwVariants", complete=True, annos=[], fields=[fl(i + 1, k, i32) for i, k in enumerate(kws[:20])]),
+        dict(kind="struct", name="Collide", complete=True, annos=[], fields=[fl(1, "fooBar", i32), fl(2, "foo_bar", i32), fl(3, "FooBar", ("base", "string")),
+                                                                          fl(4, "IDs", i32), fl(5, "Ids", i32), fl(6, "plain", ("ref", 2, "Leaf"), "optional")]),
+        dict(kind="struct", name="fooItem", complete=True, annos=[], fields=[fl(1, "x", i32)]),
+        dict(kind="struct", name="foo_item", complete=True, annos=[], fields=[fl(1, "x", ("ref", 2, "Color"))]),
+        dict(kind="struct", name="FooItem", complete=True, annos=[], fields=[fl(1, "x", ("ref", 1, "fooItem"), "optional")]),
+        dict(kind="struct", name="Rec", complete=True, annos=[], fields=[fl(1, "next", ("ref", 1, "Rec"), "optional"), fl(2, "kids", ("list", ("ref", 1, "Rec"))),
+                                                                      fl(3, "m", ("map", ("base", "string"), ("ref", 1, "Rec"))), fl(4, "leaf", ("ref", 2, "LeafAlias"))]),
+        dict(kind="struct", name="MutA", complete=True, annos=[], fields=[fl(1, "b", ("ref", 1, "MutB"), "optional"), fl(2, "u", ("ref", 1, "MutU"), "optional")]),
+        dict(kind="struct", name="MutB", complete=True, annos=[], fields=[fl(1, "a", ("ref", 1, "MutA"), "optional"), fl(2, "n", i32, "required")]),
+        dict(kind="union", name="MutU", complete=True, annos=[], fields=[fl(1, "a", ("ref", 1, "MutA")), fl(2, "i", i32)]),
+    ]
+    f0["items"] += [
+        dict(kind="struct", name="Top", complete=True, annos=[], fields=[fl(1, "r", ("ref", 1, "Rec"), "optional"), fl(2, "l", ("ref", 2, "Leaf"), "required"),
+                                                                      fl(3, "c", ("ref", 2, "Color")), fl(4, "k", ("ref", 1, "KwFields"), "optional"),
+                                                                      dict(id=5, name="lim", ty=i32, req="", default="f2.LIMIT", annos=[]),
+                                                                      dict(id=6, name="col", ty=("ref", 2, "Color"), req="", default="f2.Color.fooBar", annos=[])]),
+        dict(kind="exception", name="Oops", complete=True, annos=[], fields=[fl(1, "why", ("base", "string"))]),
+        dict(kind="service", name="KwSvc", extends=None, methods=[
+            dict(name=k, args=[fl(1, kws[(j + 1) % len(kws)], i32), fl(2, "x", ("ref", 1, "Collide"))], ret=("ref", 2, "Leaf") if j % 2 else None, throws=[], oneway=False)
+            for j, k in enumerate(kws[:12])] + [
+            dict(name="fail", args=[fl(1, "t", ("ref", 0, "Top"))], ret=("ref", 1, "MutA"), throws=[fl(1, "e", ("ref", 0, "Oops"))], oneway=False)]),
+    ]
+    return d
+
+
 def gen_thrift_doc(rng, **kw):
     return ThriftGen(rng, **kw).gen()
 
